@@ -24,7 +24,7 @@ RULE = ("cases = enumerated (not sampled) cross product of: option --method (abs
         "method the helper answers with (auto -> nat/nft/pf/ipfw; plus a synthetic method without loopback_proxy_port) x "
         "--disable-ipv6 x 13 --listen forms (none, v4, v4:port, v6, v6:port, both, both with ports, both with one port, "
         "0.0.0.0, bare port, port equal to the first DNS search port) x DNS forms (off, --dns with v4/v6/both/no resolvers, "
-        "--ns-hosts v4/v6, --ns-hosts equal to a resolver) x --to-ns x subnets per family (none/one/the listen address itself, with and without a port/both families) x excludes (unrelated; entries whose IP equals an active listen address - default loopback or the --listen address of each family - plain, with another mask, with a port, with a port range, alone and combined with unrelated entries) x "
+        "--ns-hosts v4/v6, --ns-hosts equal to a resolver, scoped link-local / IPv4-mapped / compressed IPv6 name-server texts in resolv.conf and --ns-hosts, read by the real resolvconf_nameservers / family_ip_tuple) x --to-ns x subnets per family (none/one/the listen address itself, with and without a port/both families) x excludes (unrelated; entries whose IP equals an active listen address - default loopback or the --listen address of each family - plain, with another mask, with a port, with a port range, alone and combined with unrelated entries) x "
         "-N x user/group (absent, known, unknown, resolving to numeric id 0 or 1, for every method) x bind-oracle patterns (all free, first ports busy per protocol/family, "
         "explicit port busy, EACCES, EADDRNOTAVAIL on IPv6, everything busy, all but the last port busy, all UDP busy); "
         "quick tier = corpus of boundary configurations (incl. those of findings F11-F14, F21, F22) "
@@ -81,6 +81,26 @@ def ipnum(ip):
     return int(ipaddress.ip_address(ip))
 
 
+def ns_fam(text):
+    """The independent rule of the oracle: an address text with a colon is IPv6."""
+    return 6 if ':' in text else 4
+
+
+def nsnum(text):
+    """Numeric name of a name-server text for the line protocol (injective on the texts used:
+    the address value, plus a component for a zone id)."""
+    import zlib
+    if '%' in text:
+        addr, zone = text.split('%', 1)
+        return int(ipaddress.ip_address(addr)) + ((zlib.crc32(zone.encode()) + 1) << 128)
+    return int(ipaddress.ip_address(text))
+
+
+def tok_ns(x):
+    text = x[1] if isinstance(x, (tuple, list)) else x
+    return '%d,%s' % (nsnum(text), text)
+
+
 def _fam(f):
     return 4 if f in (4, AF4) else 6
 
@@ -103,7 +123,7 @@ def case_line(c):
              'listen=%s' % ('N' if c['listen'] is None else
                             tok_list(c['listen'], lambda x: '%d:%d:%d' % (_fam(x[0]), ipnum(x[1] or ANY4), x[2]))),
              'dns=%d' % c['dns'],
-             'nsh=%s' % tok_list(c['nsh'], lambda x: '%d:%d' % (_fam(x[0]), ipnum(x[1]))),
+             'nsh=%s' % tok_list(c['nsh'], tok_ns),
              'tons=%s' % ('-' if c['tons'] is None else '%d:%d:%d' % (_fam(c['tons'][0]), ipnum(c['tons'][1]), c['tons'][2])),
              'inc=%s' % tok_list(c['inc'], tok_sub),
              'exc=%s' % tok_list(c['exc'], tok_sub),
@@ -111,7 +131,7 @@ def case_line(c):
              'user=%s' % ('-' if c['user'] is None else c['user']),
              'group=%s' % ('-' if c['group'] is None else c['group']),
              'remote=%d' % c['remote'],
-             'resolv=%s' % tok_list(c['resolv'], lambda x: '%d:%d' % (_fam(x[0]), ipnum(x[1]))),
+             'resolv=%s' % tok_list(c['resolv'], tok_ns),
              'users=%s' % tok_list(sorted(c['users'].items()), lambda x: '%d:%d' % (int(x[0]), x[1])),
              'groups=%s' % tok_list(sorted(c['groups'].items()), lambda x: '%d:%d' % (int(x[0]), x[1])),
              'bind=%s' % tok_list(c['bind'], lambda x: '%s:%d:%d:%d:%s' % (x[0], _fam(x[1]), x[2], x[3], x[4]))]
@@ -325,8 +345,23 @@ def run_real(case):
     client.socket = make_socket_module(world)
     client.getpwnam = getpwnam
     client.getgrnam = getgrnam
-    client.resolvconf_nameservers = lambda systemd_resolved: [
-        (AF6 if _fam(f) == 6 else AF4, ip) for (f, ip) in case['resolv']]
+    # the real helpers.resolvconf_nameservers / family_ip_tuple read scripted resolv.conf files
+    texts = [x[1] for x in case['resolv']]
+    first, second = (texts[:-1], texts[-1:]) if len(texts) >= 2 else (texts, [])
+    files = {
+        '/etc/resolv.conf': '# generated\nsearch example.test\noptions ndots:1\n' +
+                            ''.join('nameserver %s\n' % t for t in first) + 'nameserver\n',
+        '/run/systemd/resolve/resolv.conf': (''.join('NameServer\t%s  # x\n' % t for t in second)
+                                             if second else None),
+    }
+
+    def fake_open(path, *a, **k):
+        if path in files:
+            if files[path] is None:
+                raise FileNotFoundError(errno.ENOENT, 'No such file or directory', path)
+            return io.StringIO(files[path])
+        return open(path, *a, **k)
+    helpers.open = fake_open
     sdnotify.send = lambda *a: False
     cmdline.log = lambda s: logged.append(s)
     sys.argv = ['sshuttle'] + argv_of(case)
@@ -356,7 +391,8 @@ def run_real(case):
         client.socket = saved['sock']
         client.getpwnam = saved['pw']
         client.getgrnam = saved['gr']
-        client.resolvconf_nameservers = saved['rc']
+        if 'open' in vars(helpers):
+            del helpers.open
         sdnotify.send = saved['sd']
         cmdline.log = saved['log']
         sys.argv = saved['argv']
@@ -434,7 +470,7 @@ def canon_out(res):
         tons = res['tons']
         return ('plan inc=%s exc=%s ns=%s rp6=%d rp4=%d dp6=%d dp4=%d udp=%d user=%s group=%s tcp=%s udp_l=%s dns_l=%s tons=%s'
                 % (tok_list(s['inc'], tok_sub), tok_list(s['exc'], tok_sub),
-                   tok_list(s['ns'], lambda x: '%d:%d' % (_fam(x[0]), ipnum(x[1]))),
+                   tok_list(s['ns'], lambda x: '%d:%d' % (_fam(x[0]), nsnum(x[1]))),
                    s['rp6'], s['rp4'], s['dp6'], s['dp4'], 1 if s['udp'] else 0,
                    '-' if s['user'] is None else s['user'], '-' if s['group'] is None else s['group'],
                    show_listener(res['listeners']['tcp']), show_listener(res['listeners']['udp']),
@@ -498,8 +534,13 @@ def plan_checks(case, res, feats):
     out['b'] = (not bad, 'listen address neither excluded nor listed by the user: %r' % (bad,))
     # (c)
     active6 = L['tcp'][0] is not None
-    v6_entries = ([e for e in s['inc'] if e[0] == AF6], [e for e in s['exc'] if e[0] == AF6],
-                  [n for n in s['ns'] if n[0] == AF6])
+    # an entry is IPv6 by the independent rule "its address text contains a colon" (or by its tag)
+    def is6(e):
+        return e[0] == AF6 or ':' in str(e[1])
+    v6_entries = ([e for e in s['inc'] if is6(e)], [e for e in s['exc'] if is6(e)],
+                  [n for n in s['ns'] if is6(n)])
+    mislabelled = [e for e in s['inc'] + s['exc'] + s['ns'] if (e[0] == AF6) != (':' in str(e[1]))]
+    out['family'] = (not mislabelled, 'entries whose family tag contradicts their address text: %r' % (mislabelled,))
     v6_socks = [l for l in all_l if l[0] is not None]
     if active6:
         ok = s['rp6'] != 0 and bool(v6_entries[0] or v6_entries[1])
@@ -518,7 +559,7 @@ def plan_checks(case, res, feats):
         d = L['dns'][i] if L['dns'] is not None else None
         if any(e[0] == af for e in s['inc']) and t is None:
             bad.append('family %d has subnets but no TCP listener' % fam)
-        if any(n[0] == af for n in s['ns']) and d is None:
+        if any((6 if ':' in str(n[1]) else 4) == fam for n in s['ns']) and d is None:
             bad.append('family %d has name servers but no DNS listener' % fam)
         if rp != (t[1] if t else 0):
             bad.append('redirect port %d of family %d is not the bound one %r' % (rp, fam, t))
@@ -547,6 +588,7 @@ KEYS = {
     'd': 'C15:d:listeners-do-not-match-plan',
     'e': 'C15:e:dns-port-equals-redirect-port',
     'nonempty': 'C15:pf:empty-family-list',
+    'family': 'C15:c:entry-family-mislabelled',
 }
 
 
@@ -565,6 +607,12 @@ def judge(case, res, docs):
         v.append(('C15:method-rejected:' + case['meth'],
                   'documented method name %r is accepted by the option parser' % case['meth'],
                   res['msg'].strip().split('\n')[-1]))
+    # DNS capture asked for, every name server IPv6 (by its text), IPv6 not in use -> must be fatal
+    asked = [x[1] for x in case['nsh']] + ([x[1] for x in case['resolv']] if case['dns'] else [])
+    if asked and all(ns_fam(t) == 6 for t in asked) and k == 'plan' and res['listeners']['tcp'][0] is None:
+        v.append(('C15:dns-all-ipv6-not-fatal',
+                  "all name servers are IPv6 and IPv6 is off: fatal \"Can't redirect DNS traffic ...\"",
+                  'plan handed over with ns=%r' % (res['setup']['ns'],)))
     if k == 'plan':
         feats = method_features(case)
         if case['group'] is not None and not feats['group']:
@@ -631,8 +679,17 @@ DNS = {
     'nsh6': dict(nsh=[(6, '2001:db8::9')], resolv=[R4]),
     'nsh=resolv': dict(dns=1, nsh=[R4, R6], resolv=[R4, R6]),
 }
+NS_TEXT = {
+    'dns6scoped': dict(dns=1, resolv=[(6, 'fe80::1%eth0')]),
+    'dns4+6scoped': dict(dns=1, resolv=[R4, (6, 'fe80::2%1')]),
+    'nsh6scoped': dict(nsh=[(6, 'fe80::1%eth0')], resolv=[R4]),
+    'nsh6scoped+4': dict(nsh=[(6, 'fe80::2%1'), (4, '9.9.9.9')]),
+    'dns6mapped': dict(dns=1, resolv=[(6, '::ffff:1.2.3.4')]),
+    'dns6compressed+4': dict(dns=1, resolv=[(6, '2001:db8:0:0::53'), (4, '8.8.4.4'), (6, '::1')]),
+}
+DNS.update(NS_TEXT)
 DNS_SMALL = ['off', 'dns46', 'nsh6']
-DNS_CORE = [k for k in DNS if k != 'nsh=resolv']
+DNS_CORE = [k for k in DNS if k != 'nsh=resolv' and k not in NS_TEXT]
 
 SUBNETS = ['none', 'v4', 'v6', 'both', 'self4', 'self6', 'selfboth', 'self4port', 'self6range']
 SUBNETS_SMALL = ['v4', 'both', 'none']
@@ -756,6 +813,12 @@ def product_ids():
         yield build(m, dis6, lf, df, sf, 'free', ug=ug)
 
 
+def product_nstext():
+    """Name-server texts in the spellings the family classification must get right."""
+    for m, dis6, lf, df, sf in itertools.product(METHODS, (0, 1), LISTEN_SMALL + ['v4'], NS_TEXT, ('v4', 'both')):
+        yield build(m, dis6, lf, df, sf, 'free')
+
+
 def product_heavy():
     for m, dis6, lf, df, bf in itertools.product(METHODS, (0,), LISTEN, ('off', 'dns4', 'dns46'), BIND_HEAVY):
         yield build(m, dis6, lf, df, 'both', bf, heavy=True)
@@ -813,6 +876,12 @@ def corpus():
     for m in METHODS:
         for ug in ('user0', 'group0', 'both0', 'small'):
             out.append(build(m, 0, 'none', 'off', 'v4', 'free', ug=ug))
+    # scoped / mapped / compressed IPv6 name servers (seeded change M-C15-I)
+    for m in (nat, ('ipfw', 'ipfw'), tpx):
+        for dis6 in (0, 1):
+            for df in NS_TEXT:
+                out.append(build(m, dis6, 'none', df, 'v4', 'free'))
+    out.append(build(nat, 0, 'v4', 'dns6scoped', 'both', 'free'))
     c, _ = build(nat, 0, 'none', 'off', 'v4', 'free')
     c['remote'] = 0
     out.append((c, 'no-remote'))
@@ -823,13 +892,14 @@ def gen_cases(ctx):
     cases = list(corpus())
     rng = ctx.rng
     if ctx.thorough:
-        cases += list(product_core()) + list(product_rest()) + list(product_coincide()) + list(product_ids()) + list(product_heavy())
+        cases += list(product_core()) + list(product_rest()) + list(product_coincide()) + list(product_ids()) + list(product_nstext()) + list(product_heavy())
     else:
         frac_core, frac_rest, n_heavy = 0.03 * ctx.boost, 0.02 * ctx.boost, 12 * ctx.boost
         cases += [x for x in product_core() if rng.random() < frac_core]
         cases += [x for x in product_rest() if rng.random() < frac_rest]
         cases += [x for x in product_coincide() if rng.random() < frac_core]
         cases += [x for x in product_ids() if rng.random() < frac_core]
+        cases += [x for x in product_nstext() if rng.random() < frac_core]
         heavy = list(product_heavy())
         cases += rng.sample(heavy, min(n_heavy, len(heavy)))
     return cases
